@@ -13,7 +13,7 @@ META = {
         "follows it); D2 a CRC failure raises RTCMParseError (DNF gate, shared C01-D4) and that class is in the reader loop's handler tuple; "
         "D3 error dispatch by partial evaluation over the finite mode domain {ERR_IGNORE, ERR_LOG, ERR_RAISE} x {handler set, handler None}: "
         "the handler and the dispatcher are folded on each constant mode and the residual effects enumerated (raise of the caught object / exactly one sink once / nothing); "
-        "D4 resumption: the handler ends in continue and the reader holds no per-stream state outside its constructor. "
+        "D4 resumption: the handler ends in continue and the reader holds no per-stream state outside its constructor; what read() can return is the shared C01-D7. "
         "That the damage is detected at all is C08; counting over concrete streams is not static."
     ),
     "trusted": ["CPython ast parser", "sa/symeval.py partial evaluator", "oracle/frames.json"],
@@ -58,6 +58,9 @@ def run(eng, ctx):
     # ---------------- D2
     SH.crc_gate(eng, ctx, "C01.D4")
     SH.assembler_result(eng, ctx, "C01.D8", m)  # a damaged frame is rejected only if every assembled frame goes through the static parser
+    # "returns exactly the undamaged frames": what read() hands back is the assembler's pair of this iteration or the end-of-data pair - never a
+    # value left over from an iteration whose frame was rejected (C01-D7, shared)
+    SH.read_returns(eng, ctx, "C01.D7", m)
     ctx.rule("C05.D2", "the exception class raised on CRC failure is caught by the reader loop's handler")
     handlers = [n for n in walk_no_nested(rd.node) if isinstance(n, ast.ExceptHandler)]
     caught = set()
